@@ -395,186 +395,223 @@ Lemma content_eqb_refl a : content_eqb a a = true.
 Proof. destruct a. unfold content_eqb. simpl. rewrite !Z.eqb_refl. reflexivity. Qed.
 Lemma gaze_eqb_eq a b : gaze_eqb a b = true -> a = b.
 Proof. exact (content_eqb_eq a b). Qed.
+Lemma gaze_eqb_refl a : gaze_eqb a a = true.
+Proof. exact (content_eqb_refl a). Qed.
 
 (* the generic argument: an invariant of the object's state that is kept by every call, that does not
    mention the heap (so in-place edits by the caller cannot break it), and under which a call returns
    what a fresh object returns *)
 Section Invariant.
-Context {S : Type} (step : env -> S -> nat -> nat -> nat -> S * out) (init : S) (Inv : S -> Prop).
+Context {S : Type} (step : env -> S -> nat -> nat -> nat -> Z -> S * out) (init : S) (Inv : S -> Prop).
 Hypothesis inv_init : Inv init.
-Hypothesis inv_step : forall e s i t g, Inv s ->
-  Inv (fst (step e s i t g)) /\ snd (step e s i t g) = snd (step e init i t g).
+Hypothesis inv_step : forall e s i t g c, Inv s ->
+  Inv (fst (step e s i t g c)) /\ snd (step e s i t g c) = snd (step e init i t g c).
 Lemma run_by_invariant : history_independent step init.
 Proof.
   intros e ops. assert (G : forall e s, Inv s -> run step e s ops = run_fresh step init e ops).
-  { induction ops as [|o r IH]; intros e' s Hs; [reflexivity|]. destruct o as [i t g|g v|t d]; simpl.
-    - destruct (inv_step e' s i t g Hs) as [H1 H2]. destruct (step e' s i t g) as [s1 o1]. simpl in *. rewrite H2. f_equal. apply IH. exact H1.
+  { induction ops as [|o r IH]; intros e' s Hs; [reflexivity|]. destruct o as [i t g c|g v|t d]; simpl.
+    - destruct (inv_step e' s i t g c Hs) as [H1 H2]. destruct (step e' s i t g c) as [s1 o1]. simpl in *. rewrite H2. f_equal. apply IH. exact H1.
     - apply IH. exact Hs.
     - apply IH. exact Hs. }
   apply G. exact inv_init.
 Qed.
 End Invariant.
 
-(* ---- RadiallyVaryingBlur with a copied gaze *)
+(* ---- RadiallyVaryingBlur with a copied gaze and the map built from the call's own configuration *)
 Definition rvb_ok (r : rvb_state) : Prop :=
-  match r with None => True | Some (sh, k, l) => exists v, k = GVal v /\ l = Lod sh v end.
-Lemma rvb_lookup_ok d e r sh g : lod_copy d = true -> rvb_ok r ->
-  rvb_ok (fst (rvb_lookup d e r sh g)) /\ snd (rvb_lookup d e r sh g) = Lod sh (gaze_at e g).
+  match r with None => True | Some (sh, c, k, l) => exists v, k = GVal v /\ l = Lod sh c v end.
+Lemma rvb_lookup_ok d e r sh c g : lod_copy d = true -> cfg_arg d = true -> rvb_ok r ->
+  rvb_ok (fst (rvb_lookup d e r sh c g)) /\ snd (rvb_lookup d e r sh c g) = Lod sh c (gaze_at e g).
 Proof.
-  intros Hd Hr. unfold rvb_lookup. rewrite Hd. destruct r as [[[sh0 k] l]|]; simpl.
-  - destruct Hr as [v [-> ->]]. simpl. destruct ((sh0 =? sh) && gaze_eqb v (gaze_at e g)) eqn:E; simpl.
-    + apply andb_true_iff in E. destruct E as [E1 E2]. apply Z.eqb_eq in E1. apply gaze_eqb_eq in E2. subst. split; [exists (gaze_at e g); split; reflexivity|reflexivity].
+  intros Hd Hc Hr. unfold rvb_lookup. rewrite Hd, Hc. destruct r as [[[[sh0 c0] k] l]|]; simpl.
+  - destruct Hr as [v [-> ->]]. simpl. destruct ((sh0 =? sh) && (c0 =? c) && gaze_eqb v (gaze_at e g)) eqn:E; simpl.
+    + apply andb_true_iff in E. destruct E as [E12 E3]. apply andb_true_iff in E12. destruct E12 as [E1 E2].
+      apply Z.eqb_eq in E1. apply Z.eqb_eq in E2. apply gaze_eqb_eq in E3. subst. split; [exists (gaze_at e g); split; reflexivity|reflexivity].
     + split; [exists (gaze_at e g); split; reflexivity|reflexivity].
   - split; [exists (gaze_at e g); split; reflexivity|reflexivity].
 Qed.
 
 Local Arguments rvb_lookup : simpl never.
-Lemma blur_step_ok d e s i t g : lod_copy d = true -> rvb_ok s ->
-  rvb_ok (fst (blur_step d e s i t g)) /\ snd (blur_step d e s i t g) = snd (blur_step d e blur_init i t g).
+Lemma rvb_step_ok d e s i t g c : lod_copy d = true -> cfg_arg d = true -> rvb_ok s ->
+  rvb_ok (fst (rvb_step d e s i t g c)) /\ snd (rvb_step d e s i t g c) = snd (rvb_step d e blur_init i t g c).
 Proof.
-  intros Hd Hs. unfold blur_step. destruct (negb (c_shape (tensor_at e i) =? c_shape (tensor_at e t))); [split; [exact Hs|reflexivity]|].
-  destruct (rvb_lookup_ok d e s (c_shape (tensor_at e t)) g Hd Hs) as [A B].
-  destruct (rvb_lookup_ok d e blur_init (c_shape (tensor_at e t)) g Hd I) as [_ B0].
-  destruct (rvb_lookup d e s _ g) as [s1 l]. destruct (rvb_lookup d e blur_init _ g) as [s0 l0]. simpl in *. subst. split; [exact A|reflexivity].
+  intros Hd Hc Hs. unfold rvb_step.
+  destruct (rvb_lookup_ok d e s (c_shape (tensor_at e i)) c g Hd Hc Hs) as [A B].
+  destruct (rvb_lookup_ok d e blur_init (c_shape (tensor_at e i)) c g Hd Hc I) as [_ B0].
+  destruct (rvb_lookup d e s _ c g) as [s1 l]. destruct (rvb_lookup d e blur_init _ c g) as [s0 l0]. simpl in *. subst. split; [exact A|reflexivity].
 Qed.
-Lemma blur_sound d : sound_blur d = true -> history_independent (blur_step d) blur_init.
-Proof. intros Hd. apply (run_by_invariant (blur_step d) blur_init rvb_ok); [exact I|]. intros. apply blur_step_ok; assumption. Qed.
+Lemma sound_rvb_flags d : sound_rvb d = true -> lod_copy d = true /\ cfg_arg d = true.
+Proof. unfold sound_rvb. intros H. apply andb_true_iff in H. exact H. Qed.
+Lemma rvb_sound d : sound_rvb d = true -> history_independent (rvb_step d) blur_init.
+Proof. intros Hd. destruct (sound_rvb_flags d Hd). apply (run_by_invariant (rvb_step d) blur_init rvb_ok); [exact I|]. intros. apply rvb_step_ok; assumption. Qed.
+
+Lemma blur_step_ok d c0 e s i t g c : lod_copy d = true -> cfg_arg d = true -> rvb_ok s ->
+  rvb_ok (fst (blur_step d c0 e s i t g c)) /\ snd (blur_step d c0 e s i t g c) = snd (blur_step d c0 e blur_init i t g c).
+Proof.
+  intros Hd Hc Hs. unfold blur_step. destruct (negb (c_shape (tensor_at e i) =? c_shape (tensor_at e t))); [split; [exact Hs|reflexivity]|].
+  destruct (rvb_lookup_ok d e s (c_shape (tensor_at e t)) c0 g Hd Hc Hs) as [A B].
+  destruct (rvb_lookup_ok d e blur_init (c_shape (tensor_at e t)) c0 g Hd Hc I) as [_ B0].
+  destruct (rvb_lookup d e s _ c0 g) as [s1 l]. destruct (rvb_lookup d e blur_init _ c0 g) as [s0 l0]. simpl in *. subst. split; [exact A|reflexivity].
+Qed.
+Lemma blur_sound d c0 : sound_blur d = true -> history_independent (blur_step d c0) blur_init.
+Proof. intros Hd. destruct (sound_rvb_flags d Hd). apply (run_by_invariant (blur_step d c0) blur_init rvb_ok); [exact I|]. intros. apply blur_step_ok; assumption. Qed.
 
 (* ---- MetamericLoss with (target value, gaze value) as the key *)
-Definition met_ok (s : met_state) : Prop :=
-  match fst s with None => True | Some (c, kg, st) => st = Some (Stats c (Lod (c_shape c) kg)) end /\ rvb_ok (snd s).
-Lemma met_step_ok d e s i t g : sound_met d = true -> met_ok s ->
-  met_ok (fst (met_step d e s i t g)) /\ snd (met_step d e s i t g) = snd (met_step d e met_init i t g).
+Definition met_ok (c0 : Z) (s : met_state) : Prop :=
+  match fst s with None => True | Some (c, kg, st) => st = Some (Stats c (Lod (c_shape c) c0 kg)) end /\ rvb_ok (snd s).
+Lemma sound_met_flags d : sound_met d = true ->
+  lod_copy d = true /\ key_gaze d = true /\ key_shape d = true /\ init_none d = true /\ cfg_arg d = true.
+Proof. unfold sound_met. intros H. repeat (apply andb_true_iff in H; destruct H as [H ?]). tauto. Qed.
+Lemma met_step_ok d c0 e s i t g c : sound_met d = true -> met_ok c0 s ->
+  met_ok c0 (fst (met_step d c0 e s i t g c)) /\ snd (met_step d c0 e s i t g c) = snd (met_step d c0 e met_init i t g c).
 Proof.
-  intros Hd Hs. unfold sound_met in Hd. repeat (apply andb_true_iff in Hd; destruct Hd as [Hd ?]).
-  rename Hd into Hcopy. unfold met_step, met_init. rewrite H, H0, H1. simpl negb. simpl orb. cbv iota.
+  intros Hd Hs. destruct (sound_met_flags d Hd) as [Hcopy [Hg [Hsh [Hin Hcfg]]]].
+  unfold met_step, met_init. rewrite Hg, Hsh, Hin. simpl negb. simpl orb. cbv iota.
   destruct (negb (c_shape (tensor_at e i) =? c_shape (tensor_at e t))); [split; [exact Hs|reflexivity]|].
   destruct s as [tc rvb]. destruct Hs as [Htc Hrvb]. simpl in Htc, Hrvb.
   set (sh := c_shape (tensor_at e t)).
   (* the fresh object *)
-  destruct (rvb_lookup_ok d e None sh g Hcopy I) as [F1 F2].
-  destruct (rvb_lookup d e None sh g) as [f1 fl] eqn:EF. simpl in F1, F2.
-  destruct (rvb_lookup_ok d e f1 sh g Hcopy F1) as [F3 F4].
-  destruct (rvb_lookup d e f1 sh g) as [f2 fl2] eqn:EF2. simpl in F3, F4. simpl. subst fl fl2.
+  destruct (rvb_lookup_ok d e None sh c0 g Hcopy Hcfg I) as [F1 F2].
+  destruct (rvb_lookup d e None sh c0 g) as [f1 fl] eqn:EF. simpl in F1, F2.
+  destruct (rvb_lookup_ok d e f1 sh c0 g Hcopy Hcfg F1) as [F3 F4].
+  destruct (rvb_lookup d e f1 sh c0 g) as [f2 fl2] eqn:EF2. simpl in F3, F4. simpl. subst fl fl2.
   (* this object *)
-  destruct (rvb_lookup_ok d e rvb sh g Hcopy Hrvb) as [R1 R2].
-  destruct (rvb_lookup d e rvb sh g) as [r1 rl] eqn:ER. simpl in R1, R2.
-  destruct (rvb_lookup_ok d e r1 sh g Hcopy R1) as [R3 R4].
-  destruct (rvb_lookup d e r1 sh g) as [r2 rl2] eqn:ER2. simpl in R3, R4. subst rl rl2.
-  destruct tc as [[[c kg] st]|]; simpl.
-  - destruct (content_eqb c (tensor_at e t) && gaze_eqb kg (gaze_at e g)) eqn:E.
-    + apply andb_true_iff in E. destruct E as [E1 E2]. apply content_eqb_eq in E1. apply gaze_eqb_eq in E2. subst c kg st.
+  destruct (rvb_lookup_ok d e rvb sh c0 g Hcopy Hcfg Hrvb) as [R1 R2].
+  destruct (rvb_lookup d e rvb sh c0 g) as [r1 rl] eqn:ER. simpl in R1, R2.
+  destruct (rvb_lookup_ok d e r1 sh c0 g Hcopy Hcfg R1) as [R3 R4].
+  destruct (rvb_lookup d e r1 sh c0 g) as [r2 rl2] eqn:ER2. simpl in R3, R4. subst rl rl2.
+  destruct tc as [[[cc kg] st]|]; simpl.
+  - destruct (content_eqb cc (tensor_at e t) && gaze_eqb kg (gaze_at e g)) eqn:E.
+    + apply andb_true_iff in E. destruct E as [E1 E2]. apply content_eqb_eq in E1. apply gaze_eqb_eq in E2. subst cc kg st.
       simpl. split; [split; [reflexivity|exact R1]|reflexivity].
     + simpl. split; [split; [reflexivity|exact R3]|reflexivity].
   - split; [split; [reflexivity|exact R3]|reflexivity].
 Qed.
-Lemma met_sound d : sound_met d = true -> history_independent (met_step d) met_init.
-Proof. intros Hd. apply (run_by_invariant (met_step d) met_init met_ok); [split; exact I|]. intros. apply met_step_ok; assumption. Qed.
+Lemma met_sound d c0 : sound_met d = true -> history_independent (met_step d c0) met_init.
+Proof. intros Hd. apply (run_by_invariant (met_step d c0) met_init (met_ok c0)); [split; exact I|]. intros. apply met_step_ok; assumption. Qed.
 
 (* ---- MetamerMSELoss with (target value, gaze value) as the key *)
-Definition mse_ok (s : mse_state) : Prop :=
-  match fst s with None => True | Some (k, kg, m) => exists c, k = TVal c /\ m = Metamer c (Lod (c_shape c) kg) end /\ rvb_ok (snd s).
-Lemma mse_step_ok d e s i t g : sound_mse d = true -> mse_ok s ->
-  mse_ok (fst (mse_step d e s i t g)) /\ snd (mse_step d e s i t g) = snd (mse_step d e mse_init i t g).
+Definition mse_ok (c0 : Z) (s : mse_state) : Prop :=
+  match fst s with None => True | Some (k, kg, m) => exists c, k = TVal c /\ m = Metamer c (Lod (c_shape c) c0 kg) end /\ rvb_ok (snd s).
+Lemma sound_mse_flags d : sound_mse d = true -> lod_copy d = true /\ key_gaze d = true /\ key_value d = true /\ cfg_arg d = true.
+Proof. unfold sound_mse. intros H. repeat (apply andb_true_iff in H; destruct H as [H ?]). tauto. Qed.
+Lemma mse_step_ok d c0 e s i t g c : sound_mse d = true -> mse_ok c0 s ->
+  mse_ok c0 (fst (mse_step d c0 e s i t g c)) /\ snd (mse_step d c0 e s i t g c) = snd (mse_step d c0 e mse_init i t g c).
 Proof.
-  intros Hd Hs. unfold sound_mse in Hd. repeat (apply andb_true_iff in Hd; destruct Hd as [Hd ?]).
-  rename Hd into Hcopy. unfold mse_step, mse_init. rewrite H, H0. simpl negb. simpl orb.
+  intros Hd Hs. destruct (sound_mse_flags d Hd) as [Hcopy [Hg [Hv Hcfg]]].
+  unfold mse_step, mse_init. rewrite Hg, Hv. simpl negb. simpl orb.
   destruct (negb (c_shape (tensor_at e i) =? c_shape (tensor_at e t))); [split; [exact Hs|reflexivity]|].
   destruct s as [mc rvb]. destruct Hs as [Hmc Hrvb]. simpl in Hmc, Hrvb.
   set (sh := c_shape (tensor_at e t)).
-  destruct (rvb_lookup_ok d e None sh g Hcopy I) as [F1 F2].
-  destruct (rvb_lookup d e None sh g) as [f1 fl] eqn:EF. simpl in F1, F2. simpl. subst fl.
-  destruct (rvb_lookup_ok d e rvb sh g Hcopy Hrvb) as [R1 R2].
-  destruct (rvb_lookup d e rvb sh g) as [r1 rl] eqn:ER. simpl in R1, R2. subst rl.
+  destruct (rvb_lookup_ok d e None sh c0 g Hcopy Hcfg I) as [F1 F2].
+  destruct (rvb_lookup d e None sh c0 g) as [f1 fl] eqn:EF. simpl in F1, F2. simpl. subst fl.
+  destruct (rvb_lookup_ok d e rvb sh c0 g Hcopy Hcfg Hrvb) as [R1 R2].
+  destruct (rvb_lookup d e rvb sh c0 g) as [r1 rl] eqn:ER. simpl in R1, R2. subst rl.
   destruct mc as [[[k kg] m]|]; simpl.
-  - destruct Hmc as [c [-> ->]]. simpl.
-    destruct (content_eqb c (tensor_at e t) && gaze_eqb kg (gaze_at e g)) eqn:E.
-    + apply andb_true_iff in E. destruct E as [E1 E2]. apply content_eqb_eq in E1. apply gaze_eqb_eq in E2. subst c kg.
+  - destruct Hmc as [cc [-> ->]]. simpl.
+    destruct (content_eqb cc (tensor_at e t) && gaze_eqb kg (gaze_at e g)) eqn:E.
+    + apply andb_true_iff in E. destruct E as [E1 E2]. apply content_eqb_eq in E1. apply gaze_eqb_eq in E2. subst cc kg.
       simpl. split; [split; [exists (tensor_at e t); split; reflexivity|exact Hrvb]|reflexivity].
     + simpl. split; [split; [exists (tensor_at e t); split; reflexivity|exact R1]|reflexivity].
   - split; [split; [exists (tensor_at e t); split; reflexivity|exact R1]|reflexivity].
 Qed.
-Lemma mse_sound d : sound_mse d = true -> history_independent (mse_step d) mse_init.
-Proof. intros Hd. apply (run_by_invariant (mse_step d) mse_init mse_ok); [split; exact I|]. intros. apply mse_step_ok; assumption. Qed.
+Lemma mse_sound d c0 : sound_mse d = true -> history_independent (mse_step d c0) mse_init.
+Proof. intros Hd. apply (run_by_invariant (mse_step d c0) mse_init (mse_ok c0)); [split; exact I|]. intros. apply mse_step_ok; assumption. Qed.
 
 (* ---- cache hits: under the repaired discipline the LOD map is reused exactly when the stored key EQUALS the
-   (shape, gaze value) of the call, and a miss recomputes it from the arguments of the call *)
-Lemma rvb_hit_iff_key e s sh g : rvb_ok s ->
-  (rvb_hit e s sh g = true <-> s = Some (sh, GVal (gaze_at e g), Lod sh (gaze_at e g))).
+   (shape, configuration, gaze value) of the call, and a miss recomputes it from the arguments of the call *)
+Lemma rvb_hit_iff_key e s sh c g : rvb_ok s ->
+  (rvb_hit e s sh c g = true <-> s = Some (sh, c, GVal (gaze_at e g), Lod sh c (gaze_at e g))).
 Proof.
-  intros Hs. destruct s as [[[sh0 k] l]|]; simpl; [|split; discriminate].
+  intros Hs. destruct s as [[[[sh0 c0] k] l]|]; simpl; [|split; discriminate].
   destruct Hs as [v [-> ->]]. simpl. split.
-  - intros H. apply andb_true_iff in H. destruct H as [H1 H2]. apply Z.eqb_eq in H1. apply gaze_eqb_eq in H2. subst. reflexivity.
-  - intros H. inversion H; subst. rewrite Z.eqb_refl. destruct (gaze_at e g) as [a b]. unfold gaze_eqb. simpl. rewrite !Z.eqb_refl. reflexivity.
+  - intros H. apply andb_true_iff in H. destruct H as [H12 H3]. apply andb_true_iff in H12. destruct H12 as [H1 H2].
+    apply Z.eqb_eq in H1. apply Z.eqb_eq in H2. apply gaze_eqb_eq in H3. subst. reflexivity.
+  - intros H. inversion H; subst. rewrite !Z.eqb_refl, gaze_eqb_refl. reflexivity.
 Qed.
-Lemma rvb_hit_keeps d e s sh g : rvb_hit e s sh g = true -> fst (rvb_lookup d e s sh g) = s.
-Proof. unfold rvb_hit, rvb_lookup. destruct s as [[[sh0 k] l]|]; [|discriminate]. intros ->. reflexivity. Qed.
-Lemma rvb_miss_recomputes d e s sh g : rvb_hit e s sh g = false -> snd (rvb_lookup d e s sh g) = Lod sh (gaze_at e g).
-Proof. unfold rvb_hit, rvb_lookup. destruct s as [[[sh0 k] l]|]; [intros ->|]; reflexivity. Qed.
+Lemma rvb_hit_keeps d e s sh c g : rvb_hit e s sh c g = true -> fst (rvb_lookup d e s sh c g) = s.
+Proof. unfold rvb_hit, rvb_lookup. destruct s as [[[[sh0 c0] k] l]|]; [|discriminate]. intros ->. reflexivity. Qed.
+Lemma rvb_miss_recomputes d e s sh c g : cfg_arg d = true -> rvb_hit e s sh c g = false -> snd (rvb_lookup d e s sh c g) = Lod sh c (gaze_at e g).
+Proof. intros Hc. unfold rvb_hit, rvb_lookup. rewrite Hc. destruct s as [[[[sh0 c0] k] l]|]; [intros ->|]; reflexivity. Qed.
 (* MetamericLoss, repaired: the statistics are reused (event 0) only if the stored (target value, gaze value) equals the call's *)
-Lemma met_reuse_iff_key e c kg st rvb i t g : c_shape (tensor_at e i) = c_shape (tensor_at e t) ->
-  (nth 0 (met_events repaired e (Some (c, kg, st), rvb) i t g) 1 = 0 <-> c = tensor_at e t /\ kg = gaze_at e g).
+Lemma met_reuse_iff_key c0 e c kg st rvb i t g cf : c_shape (tensor_at e i) = c_shape (tensor_at e t) ->
+  (nth 0 (met_events repaired c0 e (Some (c, kg, st), rvb) i t g cf) 1 = 0 <-> c = tensor_at e t /\ kg = gaze_at e g).
 Proof.
   intros Hsh. unfold met_events. rewrite Hsh, Z.eqb_refl. simpl.
   destruct (content_eqb c (tensor_at e t) && gaze_eqb kg (gaze_at e g)) eqn:E; simpl.
   - apply andb_true_iff in E. destruct E as [E1 E2]. apply content_eqb_eq in E1. apply gaze_eqb_eq in E2. tauto.
-  - split; [discriminate|]. intros [-> ->]. rewrite content_eqb_refl in E. destruct (gaze_at e g) as [a b]. unfold gaze_eqb in E. simpl in E. rewrite !Z.eqb_refl in E. discriminate.
+  - split; [discriminate|]. intros [-> ->]. rewrite content_eqb_refl, gaze_eqb_refl in E. discriminate.
 Qed.
-Lemma mse_reuse_iff_key e c kg m rvb i t g : c_shape (tensor_at e i) = c_shape (tensor_at e t) ->
-  (nth 0 (mse_events repaired e (Some (TVal c, kg, m), rvb) i t g) 1 = 0 <-> c = tensor_at e t /\ kg = gaze_at e g).
+Lemma mse_reuse_iff_key c0 e c kg m rvb i t g cf : c_shape (tensor_at e i) = c_shape (tensor_at e t) ->
+  (nth 0 (mse_events repaired c0 e (Some (TVal c, kg, m), rvb) i t g cf) 1 = 0 <-> c = tensor_at e t /\ kg = gaze_at e g).
 Proof.
   intros Hsh. unfold mse_events. rewrite Hsh, Z.eqb_refl. simpl.
   destruct (content_eqb c (tensor_at e t) && gaze_eqb kg (gaze_at e g)) eqn:E; simpl.
   - apply andb_true_iff in E. destruct E as [E1 E2]. apply content_eqb_eq in E1. apply gaze_eqb_eq in E2. tauto.
-  - split; [discriminate|]. intros [-> ->]. rewrite content_eqb_refl in E. destruct (gaze_at e g) as [a b]. unfold gaze_eqb in E. simpl in E. rewrite !Z.eqb_refl in E. discriminate.
+  - split; [discriminate|]. intros [-> ->]. rewrite content_eqb_refl, gaze_eqb_refl in E. discriminate.
 Qed.
 
-(* ---- the converse: a key that misses an argument is refuted by a short history.
-   One environment and one history expose every unsound discipline. *)
+(* ---- the converse: a key that misses an argument, or a map built from a remembered flag instead of the
+   argument, is refuted by a short history.  One environment and one history expose every unsound discipline
+   (loss objects constructed with configuration 1, e.g. equi = True; blur calls pass configuration 1). *)
 Definition w_env : env :=
   {| e_tensor := [(64, 0); (64, 1); (64, 2); (32, 3); (32, 4)]; e_gaze := [(5, 5); (1, 9)] |}.
 Definition w_ops : list op :=
-  [ Call 0%nat 0%nat 0%nat;                    (* first target is all zeros *)
-    Call 1%nat 2%nat 0%nat; Call 1%nat 2%nat 1%nat;   (* same target, another gaze list *)
-    SetGaze 1%nat (3, 3); Call 1%nat 2%nat 1%nat;     (* the same gaze list, edited in place *)
-    Call 3%nat 4%nat 0%nat;                    (* another image size *)
-    Call 1%nat 2%nat 0%nat; SetData 2%nat 7; Call 1%nat 2%nat 0%nat;     (* the target tensor edited in place *)
-    Call 0%nat 0%nat 0%nat ].                  (* an all-zero target again, now after other targets *)
+  [ Call 0%nat 0%nat 0%nat 1;                    (* first target is all zeros *)
+    Call 1%nat 2%nat 0%nat 1; Call 1%nat 2%nat 1%nat 1;   (* same target, another gaze list *)
+    SetGaze 1%nat (3, 3); Call 1%nat 2%nat 1%nat 1;     (* the same gaze list, edited in place *)
+    Call 3%nat 4%nat 0%nat 1;                    (* another image size *)
+    Call 1%nat 2%nat 0%nat 1; SetData 2%nat 7; Call 1%nat 2%nat 0%nat 1;     (* the target tensor edited in place *)
+    Call 0%nat 0%nat 0%nat 1 ].                  (* an all-zero target again, now after other targets *)
 
-Lemma blur_unsound d : sound_blur d = false -> run (blur_step d) w_env blur_init w_ops <> run_fresh (blur_step d) blur_init w_env w_ops.
-Proof. destruct d as [[] [] [] [] []]; simpl; intros H; try discriminate H; vm_compute; discriminate. Qed.
-Lemma met_unsound d : sound_met d = false -> run (met_step d) w_env met_init w_ops <> run_fresh (met_step d) met_init w_env w_ops.
-Proof. destruct d as [[] [] [] [] []]; simpl; intros H; try discriminate H; vm_compute; discriminate. Qed.
-Lemma mse_unsound d : sound_mse d = false -> run (mse_step d) w_env mse_init w_ops <> run_fresh (mse_step d) mse_init w_env w_ops.
-Proof. destruct d as [[] [] [] [] []]; simpl; intros H; try discriminate H; vm_compute; discriminate. Qed.
+Lemma rvb_unsound d : sound_rvb d = false -> run (rvb_step d) w_env blur_init w_ops <> run_fresh (rvb_step d) blur_init w_env w_ops.
+Proof. destruct d as [[] [] [] [] [] []]; simpl; intros H; try discriminate H; vm_compute; discriminate. Qed.
+Lemma blur_unsound d : sound_blur d = false -> run (blur_step d 1) w_env blur_init w_ops <> run_fresh (blur_step d 1) blur_init w_env w_ops.
+Proof. destruct d as [[] [] [] [] [] []]; simpl; intros H; try discriminate H; vm_compute; discriminate. Qed.
+Lemma met_unsound d : sound_met d = false -> run (met_step d 1) w_env met_init w_ops <> run_fresh (met_step d 1) met_init w_env w_ops.
+Proof. destruct d as [[] [] [] [] [] []]; simpl; intros H; try discriminate H; vm_compute; discriminate. Qed.
+Lemma mse_unsound d : sound_mse d = false -> run (mse_step d 1) w_env mse_init w_ops <> run_fresh (mse_step d 1) mse_init w_env w_ops.
+Proof. destruct d as [[] [] [] [] [] []]; simpl; intros H; try discriminate H; vm_compute; discriminate. Qed.
 
-Lemma blur_iff d : sound_blur d = true <-> history_independent (blur_step d) blur_init.
-Proof. split; [apply blur_sound|]. intros H. destruct (sound_blur d) eqn:E; [reflexivity|]. exfalso. exact (blur_unsound d E (H w_env w_ops)). Qed.
-Lemma met_iff d : sound_met d = true <-> history_independent (met_step d) met_init.
-Proof. split; [apply met_sound|]. intros H. destruct (sound_met d) eqn:E; [reflexivity|]. exfalso. exact (met_unsound d E (H w_env w_ops)). Qed.
-Lemma mse_iff d : sound_mse d = true <-> history_independent (mse_step d) mse_init.
-Proof. split; [apply mse_sound|]. intros H. destruct (sound_mse d) eqn:E; [reflexivity|]. exfalso. exact (mse_unsound d E (H w_env w_ops)). Qed.
+Lemma rvb_iff d : sound_rvb d = true <-> history_independent (rvb_step d) blur_init.
+Proof. split; [apply rvb_sound|]. intros H. destruct (sound_rvb d) eqn:E; [reflexivity|]. exfalso. exact (rvb_unsound d E (H w_env w_ops)). Qed.
+Lemma blur_iff d : sound_blur d = true <-> forall c0, history_independent (blur_step d c0) blur_init.
+Proof. split; [intros H c0; apply blur_sound, H|]. intros H. destruct (sound_blur d) eqn:E; [reflexivity|]. exfalso. exact (blur_unsound d E (H 1 w_env w_ops)). Qed.
+Lemma met_iff d : sound_met d = true <-> forall c0, history_independent (met_step d c0) met_init.
+Proof. split; [intros H c0; apply met_sound, H|]. intros H. destruct (sound_met d) eqn:E; [reflexivity|]. exfalso. exact (met_unsound d E (H 1 w_env w_ops)). Qed.
+Lemma mse_iff d : sound_mse d = true <-> forall c0, history_independent (mse_step d c0) mse_init.
+Proof. split; [intros H c0; apply mse_sound, H|]. intros H. destruct (sound_mse d) eqn:E; [reflexivity|]. exfalso. exact (mse_unsound d E (H 1 w_env w_ops)). Qed.
 
 (* the shipped (legacy) discipline, with two-call witnesses *)
 Lemma legacy_met_refuted : exists e i t g g',
-  run (met_step legacy) e met_init [Call i t g; Call i t g'] <> run_fresh (met_step legacy) met_init e [Call i t g; Call i t g'].
+  run (met_step legacy 0) e met_init [Call i t g 0; Call i t g' 0] <> run_fresh (met_step legacy 0) met_init e [Call i t g 0; Call i t g' 0].
 Proof. exists w_env, 1%nat, 2%nat, 0%nat, 1%nat. vm_compute. discriminate. Qed.
 Lemma legacy_mse_refuted : exists e i t g g',
-  run (mse_step legacy) e mse_init [Call i t g; Call i t g'] <> run_fresh (mse_step legacy) mse_init e [Call i t g; Call i t g'].
+  run (mse_step legacy 0) e mse_init [Call i t g 0; Call i t g' 0] <> run_fresh (mse_step legacy 0) mse_init e [Call i t g 0; Call i t g' 0].
 Proof. exists w_env, 1%nat, 2%nat, 0%nat, 1%nat. vm_compute. discriminate. Qed.
 Lemma legacy_blur_refuted : exists e i t g v,
-  run (blur_step legacy) e blur_init [Call i t g; SetGaze g v; Call i t g] <> run_fresh (blur_step legacy) blur_init e [Call i t g; SetGaze g v; Call i t g].
+  run (blur_step legacy 0) e blur_init [Call i t g 0; SetGaze g v; Call i t g 0] <> run_fresh (blur_step legacy 0) blur_init e [Call i t g 0; SetGaze g v; Call i t g 0].
 Proof. exists w_env, 1%nat, 2%nat, 0%nat, (3, 3). vm_compute. discriminate. Qed.
 Lemma legacy_met_crash : exists e i t i' t' g,
-  nth 1 (run (met_step legacy) e met_init [Call i t g; Call i' t' g]) Crash = Crash /\
-  nth 1 (run_fresh (met_step legacy) met_init e [Call i t g; Call i' t' g]) Crash <> Crash.
+  nth 1 (run (met_step legacy 0) e met_init [Call i t g 0; Call i' t' g 0]) Crash = Crash /\
+  nth 1 (run_fresh (met_step legacy 0) met_init e [Call i t g 0; Call i' t' g 0]) Crash <> Crash.
 Proof. exists w_env, 1%nat, 2%nat, 3%nat, 4%nat, 0%nat. vm_compute. split; [reflexivity|discriminate]. Qed.
+(* a map builder selected by the flag remembered from the previous fill (`if not self.equi:`): with the non-default
+   configuration a fresh object builds the default map, a used object the right one: two calls refute it *)
+Definition flag_from_self : disc := {| lod_copy := true; key_gaze := true; key_shape := true; init_none := true; key_value := true; cfg_arg := false |}.
+Lemma flag_from_self_refuted : exists e i t g g',
+  run (blur_step flag_from_self 1) e blur_init [Call i t g 1; Call i t g' 1] <> run_fresh (blur_step flag_from_self 1) blur_init e [Call i t g 1; Call i t g' 1] /\
+  run (met_step flag_from_self 1) e met_init [Call i t g 1; Call i t g' 1] <> run_fresh (met_step flag_from_self 1) met_init e [Call i t g 1; Call i t g' 1] /\
+  run (mse_step flag_from_self 1) e mse_init [Call i t g 1; Call i t g' 1] <> run_fresh (mse_step flag_from_self 1) mse_init e [Call i t g 1; Call i t g' 1] /\
+  run (rvb_step flag_from_self) e blur_init [Call i t g 1; Call i t g' 1] <> run_fresh (rvb_step flag_from_self) blur_init e [Call i t g 1; Call i t g' 1] /\
+  (* with the default configuration the same discipline is indistinguishable on this history *)
+  run (blur_step flag_from_self 0) e blur_init [Call i t g 0; Call i t g' 0] = run_fresh (blur_step flag_from_self 0) blur_init e [Call i t g 0; Call i t g' 0].
+Proof. exists w_env, 1%nat, 2%nat, 0%nat, 1%nat. repeat split; vm_compute; try discriminate; reflexivity. Qed.
 (* a fresh object never crashes on equal shapes under the repaired discipline, and identity gives the identity descriptor *)
-Lemma repaired_met_fresh e i t g : c_shape (tensor_at e i) = c_shape (tensor_at e t) ->
-  snd (met_step repaired e met_init i t g) =
-  MetOut (tensor_at e i) (Lod (c_shape (tensor_at e t)) (gaze_at e g)) (Stats (tensor_at e t) (Lod (c_shape (tensor_at e t)) (gaze_at e g))).
+Lemma repaired_met_fresh c0 e i t g c : c_shape (tensor_at e i) = c_shape (tensor_at e t) ->
+  snd (met_step repaired c0 e met_init i t g c) =
+  MetOut (tensor_at e i) (Lod (c_shape (tensor_at e t)) c0 (gaze_at e g)) (Stats (tensor_at e t) (Lod (c_shape (tensor_at e t)) c0 (gaze_at e g))).
 Proof.
-  intros H. unfold met_step. rewrite H, Z.eqb_refl. simpl. unfold rvb_lookup. simpl. rewrite Z.eqb_refl.
-  destruct (gaze_at e g) as [a b]. unfold gaze_eqb. simpl. rewrite !Z.eqb_refl. reflexivity.
+  intros H. unfold met_step. rewrite H, Z.eqb_refl. simpl. unfold rvb_lookup. simpl. rewrite !Z.eqb_refl, gaze_eqb_refl. reflexivity.
 Qed.
 Close Scope Z_scope.
